@@ -88,7 +88,8 @@ func rulePU4() Rule {
 					info := f.Info()
 					report := func(tgt string, pos token.Pos, what string) {
 						if allowed[tgt] == nil {
-							return
+							// any other (e.g. newly added, derived or cached) state of the environment
+							allowed[tgt] = map[string]bool{"interp.NewExecEnv": true, "interp.(*ExecEnv).Set": true, "interp.(*ExecEnv).Unset": true}
 						}
 						key := f.Name + "|" + what
 						if allowed[tgt][f.Root().Name] {
@@ -97,12 +98,53 @@ func rulePU4() Rule {
 							rr.Bad(f, key, pos, fmt.Sprintf("ExecEnv.%s is modified outside %v", tgt, keysOf(allowed[tgt])))
 						}
 					}
+					// locals that alias a slice field of the environment (a = env.Args[1:])
+					alias := map[types.Object]string{}
+					f.OwnNodes(func(x ast.Node) bool {
+						as, ok := x.(*ast.AssignStmt)
+						if !ok || len(as.Lhs) != len(as.Rhs) {
+							return true
+						}
+						for i, l := range as.Lhs {
+							id, ok := l.(*ast.Ident)
+							if !ok {
+								continue
+							}
+							r := ast.Unparen(as.Rhs[i])
+							if se, ok := r.(*ast.SliceExpr); ok {
+								r = ast.Unparen(se.X)
+							}
+							if tgt := envFieldTarget(info, r); tgt != "" {
+								if _, isSel := r.(*ast.SelectorExpr); isSel {
+									o := info.Defs[id]
+									if o == nil {
+										o = info.Uses[id]
+									}
+									if o != nil {
+										alias[o] = tgt
+									}
+								}
+							}
+						}
+						return true
+					})
+					aliasTarget := func(e ast.Expr) string {
+						if ix, ok := ast.Unparen(e).(*ast.IndexExpr); ok {
+							if id, ok := ast.Unparen(ix.X).(*ast.Ident); ok {
+								return alias[info.Uses[id]]
+							}
+						}
+						return ""
+					}
 					f.OwnNodes(func(x ast.Node) bool {
 						switch x := x.(type) {
 						case *ast.AssignStmt:
 							for _, l := range x.Lhs {
 								if tgt := envFieldTarget(info, l); tgt != "" {
 									report(tgt, x.Pos(), exprStr(l)+" "+x.Tok.String())
+								} else if tgt := aliasTarget(l); tgt != "" {
+									key := f.Name + "|" + exprStr(l) + " " + x.Tok.String() + " (alias of " + tgt + ")"
+									rr.Bad(f, key, x.Pos(), "an element is written through a local slice that aliases ExecEnv."+tgt+": the caller's "+tgt+" is modified")
 								}
 							}
 						case *ast.IncDecStmt:
